@@ -52,7 +52,8 @@ DiagOf(X, s) ==
     [] X.cause[s] = "critical" -> <<"critical", 6>>
     [] OTHER -> <<"?", 0>>
 
-ResTag(X, s) == IF X.st[s] = "exc" THEN <<"exc", X.res[s][2]>> ELSE <<X.res[s][1], 0>>
+ResTag(X, s) == IF X.st[s] = "exc" THEN <<"exc", X.res[s][2]>>
+                ELSE IF X.st[s] = "cancelled" THEN <<"cancelled", 0>> ELSE <<X.res[s][1], 0>>
 
 (* the loop was stalled at or after time t (earlier in the trace)            *)
 StalledSince(t) == \E i \in 1..(l - 1) : Evs[i].k = "stall" /\ Evs[i].t >= t
@@ -172,6 +173,11 @@ ETick ==
 (* the event loop was kept busy by a blocking job body: the clock moves on  *)
 (* although instant actions are pending (the one deviation from maximal    *)
 (* progress the environment is allowed; only in scenarios that script it)  *)
+(* the caller cancels the task of the top-level co_run()                     *)
+EUserCancel ==
+  /\ Is("ucancel") /\ KeepM
+  /\ UserCancelG(cfg, S) /\ S' = UserCancelF(cfg, S)
+
 EStall ==
   /\ Is("stall") /\ KeepM
   /\ Ev.i > S.now /\ S' = [S EXCEPT !.now = Ev.i]
@@ -200,7 +206,7 @@ Logged ==
   /\ l' = l + 1
   /\ \/ ERunBegin \/ EStart \/ EEnd \/ ERaise \/ ECancel \/ ERecancel \/ ECancelDone
      \/ ESshut \/ ESshutRet \/ ESshutCancel \/ ERunEnd \/ ERunExc \/ EDiag
-     \/ EShut \/ EShutDone \/ EShutCancel \/ ETick \/ ESnap \/ ETop \/ ELeftover \/ EStall \/ EShutCancelDone
+     \/ EShut \/ EShutDone \/ EShutCancel \/ ETick \/ ESnap \/ ETop \/ ELeftover \/ EStall \/ EShutCancelDone \/ EUserCancel
 
 Silent ==
   /\ l' = l /\ KeepM /\ Has
@@ -305,6 +311,7 @@ Why(C, X, e) ==
        [] e.k = "shut-cancel-done" -> "shut-cancel-done-early"
        [] e.k = "snap" -> "predicates"
        [] e.k = "stall" -> "stall-other"
+       [] e.k = "ucancel" -> "user-cancel-other"
        [] e.k = "alien" -> "alien-job-" \o e.v
        [] e.k = "top" ->
             (IF e.v \in {"deadlock", "livelock"} THEN "no-progress-" \o e.v
